@@ -224,6 +224,9 @@ func (g *Gen) applyContract(fr *frame, st *State, fc *FuncContract, key string, 
 	if fc.Trusted {
 		g.trusted[shortKey(key)] = true
 	}
+	if fc.SafetyOnly {
+		g.trusted[shortKey(key)+" (summary assumed at call sites: safety_only)"] = true
+	}
 	pkgPath := fc.PkgPath
 	if pkgPath == "" && callee != nil && callee.Pkg != nil {
 		pkgPath = callee.Pkg.Pkg.Path()
